@@ -598,6 +598,20 @@ def run(tier):
                         run.ob('%s:de:%s:%s:agrees' % (PROP, tag, m_), n2 == n2v, rule='K8 reader table', expected='the same name -> variant table as visit_str', found=n2, where=L.roots[k_].get('span'))
                 if len(n2v) == len(fields):
                     check_visit_map(run, L, n2v, [f['name'] for f in a['fields']], path)
+                # a visit_seq on the same visitor is a second way in (positional formats, JSON arrays): a sequence that ends early is a
+                # missing field and must be an error there too - never a default
+                for k_ in chain.get('visit_seq', []):
+                    r_ = L.roots[k_]
+                    run.roots.add(k_)
+                    bad_ = []
+                    for guards_, leaf_ in ret_leaves(r_['out']):
+                        if leaf_['k'] != 'ret':
+                            bad_.append('not analysable: %s' % str(leaf_.get('why'))[:80])
+                            continue
+                        ended = [L.show(tid)[:70] for kind, tid, want in guards_ if kind == 'switch' and want == 0 and L.show(tid).startswith('discr(proj(variant(') and 'next_element' in L.show(tid)]
+                        if ended and leaf_['v'].get('n') == 'Ok':
+                            bad_.append('Ok although the sequence ended at %s' % ended[0])
+                    run.ob('%s:de:%s:visit_seq' % (PROP, tag), not bad_, rule='K8 reader table', expected='a sequence that ends before every field was read is rejected', found=bad_[:3] or 'every early end is an error', where=r_.get('span'))
     run.notes['impl_kinds'] = how
     dec = adts.get('transform::Decomposed')
     run.floor('derived_types', len([p for p in DERIVED if ap(p) in adts]), 20)
